@@ -377,7 +377,7 @@ fn pie_main(args: &[String]) {
     if let Err(f) = twin_resources() { emit(&f, "pie-case --twin-resources --index 4000000000".to_string(), "two resource types with identical fields, hash and debug text".to_string()); found += 1; }
   }
   if only_index.is_none() || gets("--determinism").is_some() {
-    for n in 3..=8usize {
+    for n in [3usize, 4, 5, 6, 7, 8, 20] {   // 20: more readers of one resource than any small-collection threshold
       if let Some(v) = gets("--determinism") { if v != n.to_string() { continue; } }
       if only_violation.is_some() { continue; }
       let (prog, h) = determinism_case(n); ran += 1;
